@@ -23,7 +23,6 @@ pub fn run(ctx: &mut Ctx, prop: &str) {
         "C03" => {
             all(ctx, prop, c03_case);
             if std::env::var("PCV_LINCODE_PROBE").is_ok() {
-                probe_metadata(ctx);
                 probe_nv0(ctx);
             }
         }
@@ -621,6 +620,8 @@ fn c03<S: Lc>(ctx: &mut Ctx, id: &str, rng: &mut Rng, spec: &Spec) {
     if S::NAME != Bd::NAME {
         d6_forgery::<S>(ctx, id, rng, spec, run);
     }
+    // (ii') tampered commitment metadata (honest root, other n_ext_cols / n_rows / n_cols)
+    metadata_tamper::<S>(ctx, id, rng, spec, run);
     // (iii) shapes and entries, for a false and for the true value
     for m in SHAPE.iter().chain(ENTRIES) {
         let k = range(rng, 0, np - 1);
@@ -899,6 +900,7 @@ fn c10<S: Lc>(ctx: &mut Ctx, id: &str, rng: &mut Rng, spec: &Spec) {
             ctx.rep.expect_fail(&cid, &format!("lincode/single-fault-accepted/{}/{:?}", S::NAME, m), "a proof with one changed component was accepted", replay::<S>(&cid, ctx.seed, spec, &describe(run)));
         }
     }
+    metadata_tamper::<S>(ctx, id, rng, spec, run);
     // fewer values than commitments: only the zipped positions are examined
     if np > 1 {
         let vals: Vec<Fr> = run.values[..np - 1].to_vec();
@@ -985,65 +987,6 @@ fn c19<S: Lc>(ctx: &mut Ctx, id: &str, rng: &mut Rng, spec: &Spec) {
 // the properties' quantifiers that were examined while modelling the verifier
 // ------------------------------------------------------------------------------------------------
 
-/// The verifier takes `n_ext_cols` from the commitment's metadata and never compares it with the
-/// length of `encode(v)`.  A committer who publishes the honest root with `n_ext_cols = 2` makes the
-/// verifier open 2 columns at positions in {0, 1}; `v' = v + d*(X-1)(X-w)` encodes to the same
-/// entries there, so two different values verify for the same commitment.
-fn probe_metadata(ctx: &mut Ctx) {
-    let mut rng = rng_for(ctx.seed, "probe/metadata", 0);
-    let spec = Spec { sizes: vec![40], wf: true, sec: 128, rho_inv: 4, kind: 0 };
-    let pp = Uni::params(&mut rng, 40, true, 128, 4);
-    let vecs = vec![gen_vec::<Uni>(&mut rng, 40, 0)];
-    let point = vec![Fr::rand(&mut rng)];
-    let pre = LogSponge::fresh();
-    let run = match honest::<Uni>(&pp, &vecs, &point, &pre) {
-        Ok(r) => r,
-        Err(e) => {
-            ctx.rep.notes.push(format!("probe/metadata: honest run failed: {}", e));
-            return;
-        }
-    };
-    let _ = spec;
-    let c0 = &run.comms[0];
-    let st = &run.states[0];
-    let p0 = &run.proof[0];
-    let (n, m, k) = (c0.metadata.n_rows, c0.metadata.n_cols, c0.metadata.n_ext_cols);
-    let mut c = c0.clone();
-    c.metadata.n_ext_cols = 2;
-    // w = generator of the size-k domain: E(x)[1] = x(w)
-    use ark_poly::{EvaluationDomain, GeneralEvaluationDomain};
-    let w = GeneralEvaluationDomain::<Fr>::new(k).unwrap().element(1);
-    let mut outcomes = vec![];
-    for delta in [Fr::zero(), rand_nonzero(&mut rng)] {
-        let mut v2 = p0.opening.v.clone();
-        if m < 3 {
-            return;
-        }
-        v2[0] += delta * w;
-        v2[1] -= delta * (Fr::from(1u64) + w);
-        v2[2] += delta;
-        let (a, _b) = tensor::<Uni>(&point, m, n).unwrap();
-        let value2 = inner(&v2, &a);
-        let (_r, idx, _) = match transcript::<Uni>(&pp, &c, &point, &v2, &p0.well_formedness, &pre) {
-            Some(x) => x,
-            None => return,
-        };
-        let tree = tree_of(&st.leaves);
-        let cols: Vec<Vec<Fr>> = idx.iter().map(|q| (0..n).map(|i| st.ext_mat.entries[i][*q]).collect()).collect();
-        let paths: Vec<_> = idx.iter().map(|q| tree.generate_proof(*q).unwrap()).collect();
-        let proof = vec![MProof { opening: MProofSingle { paths, v: v2, columns: cols }, well_formedness: p0.well_formedness.clone() }];
-        let (out, _) = check::<Uni>(&pp, &[c.clone()], &point, &[value2], &proof, &pre);
-        outcomes.push(format!("delta{}0: value {} p(z): positions {:?} -> {:?}", if delta.is_zero() { "=" } else { "!=" }, if value2 == run.values[0] { "=" } else { "!=" }, idx, out));
-    }
-    ctx.rep.notes.push(format!(
-        "probe/metadata: uni-ligero 40 coefficients, honest metadata ({}, {}, {}), published n_ext_cols = 2: {}",
-        n,
-        m,
-        k,
-        outcomes.join(" | ")
-    ));
-}
-
 /// multilinear Ligero with zero variables: `compute_dimensions(1) = (2, 1)` but `tensor` returns a
 /// one-entry `b`
 fn probe_nv0(ctx: &mut Ctx) {
@@ -1054,4 +997,134 @@ fn probe_nv0(ctx: &mut Ctx) {
         Ok(run) => format!("commit/open ok, shapes {}", describe(&run)),
         Err(e) => e,
     }));
+}
+
+// ------------------------------------------------------------------------------------------------
+// tampered commitment metadata (finding fixed by "check validates the codeword length announced by
+// the commitment"): the honest root published with another n_ext_cols / n_rows / n_cols
+// ------------------------------------------------------------------------------------------------
+
+/// columns and valid paths of the honest tree at the given positions (all `< n_ext_cols` of the tree)
+fn reopen(st: &MState, idx: &[usize]) -> Option<(Vec<Vec<Fr>>, Vec<Path<crate::generic::MTConfig>>)> {
+    let n = st.ext_mat.entries.len();
+    let k = st.ext_mat.m;
+    if idx.iter().any(|q| *q >= k) {
+        return None;
+    }
+    let tree = tree_of(&st.leaves);
+    let cols = idx.iter().map(|q| (0..n).map(|i| st.ext_mat.entries[i][*q]).collect()).collect();
+    let paths = idx.iter().map(|q| tree.generate_proof(*q).ok()).collect::<Option<Vec<_>>>()?;
+    Some((cols, paths))
+}
+
+fn metadata_tamper<S: Lc>(ctx: &mut Ctx, id: &str, rng: &mut Rng, spec: &Spec, run: &Run<S>) {
+    let c0 = &run.comms[0];
+    let st = &run.states[0];
+    let p0 = &run.proof[0];
+    let (n, m, k) = (c0.metadata.n_rows, c0.metadata.n_cols, c0.metadata.n_ext_cols);
+    let (a, _b) = match tensor::<S>(&run.point, m, n) {
+        Ok(x) => x,
+        Err(_) => return,
+    };
+    let refuse = |ctx: &mut Ctx, cid: &str, what: &str, out: &Out| {
+        if out.accepted() {
+            ctx.rep.expect_fail(cid, &format!("lincode/metadata-tamper-accepted/{}/{}", S::NAME, what), "an opening was accepted for a commitment that publishes the honest root with tampered metadata", replay::<S>(cid, ctx.seed, spec, &describe(run)));
+        }
+    };
+    for (tag, k2) in [("2", 2usize), ("half", k / 2), ("double", 2 * k)] {
+        if k2 == k || k2 == 0 {
+            continue;
+        }
+        let mut comms = run.comms.clone();
+        comms[0].metadata.n_ext_cols = k2;
+        // (a0) the honest proof as it is
+        let cid = format!("{}/meta-next-{}/honest-proof", id, tag);
+        let out = decide::<S>(ctx, &cid, &run.pp, &comms, &run.point, &run.values, &run.proof, &run.pre);
+        refuse(ctx, &cid, &format!("next-{}/honest-proof", tag), &out);
+        // (a) the honest vectors re-opened at the positions the tampered metadata yields
+        if let Some((_, idx, _)) = transcript::<S>(&run.pp, &comms[0], &run.point, &p0.opening.v, &p0.well_formedness, &run.pre) {
+            let reduced: Vec<usize> = idx.iter().map(|q| q % k).collect();
+            if let Some((cols, mut paths)) = reopen(st, &reduced) {
+                for (pth, q) in paths.iter_mut().zip(&idx) {
+                    pth.leaf_index = *q;
+                }
+                let mut proof = run.proof.clone();
+                proof[0] = MProof { opening: MProofSingle { paths, v: p0.opening.v.clone(), columns: cols }, well_formedness: p0.well_formedness.clone() };
+                let cid = format!("{}/meta-next-{}/reopened", id, tag);
+                let out = decide::<S>(ctx, &cid, &run.pp, &comms, &run.point, &run.values, &proof, &run.pre);
+                refuse(ctx, &cid, &format!("next-{}/reopened", tag), &out);
+                ctx.rep.count(&format!("{}/metadata-tamper-next-{}-reopened", S::NAME, tag));
+            }
+        }
+        // (b) a different vector that encodes like v on the positions {0, 1}: for the Reed–Solomon
+        // encoders v + d*(X-1)(X-w), for Brakedown v + d*e_2 (systematic part) or v + d*(X-1)(X-2)
+        if k2 == 2 && m >= 3 {
+            let delta = rand_nonzero(rng);
+            let mut v2 = p0.opening.v.clone();
+            if S::NAME == Bd::NAME && m >= 30 {
+                // recursive case: the codeword starts with the message itself
+                v2[2] += delta;
+            } else if S::NAME == Bd::NAME {
+                // base case: evaluations at 1, 2, ...: (X-1)(X-2) vanishes on positions 0, 1
+                v2[0] += delta * Fr::from(2u64);
+                v2[1] -= delta * Fr::from(3u64);
+                v2[2] += delta;
+            } else {
+                use ark_poly::{EvaluationDomain, GeneralEvaluationDomain};
+                let w = match GeneralEvaluationDomain::<Fr>::new(k) {
+                    Some(d) => d.element(1),
+                    None => continue,
+                };
+                v2[0] += delta * w;
+                v2[1] -= delta * (one() + w);
+                v2[2] += delta;
+            }
+            let value2 = inner(&v2, &a);
+            if let Some((_, idx, _)) = transcript::<S>(&run.pp, &comms[0], &run.point, &v2, &p0.well_formedness, &run.pre) {
+                if let Some((cols, paths)) = reopen(st, &idx) {
+                    // the forged vector is consistent with the opened columns
+                    let ev = encode::<S>(&run.pp, &v2);
+                    let (_, b) = tensor::<S>(&run.point, m, n).unwrap();
+                    let consistent = ev.as_ref().map(|e| idx.iter().zip(&cols).all(|(q, col)| inner(&b, col) == e[*q])).unwrap_or(false);
+                    if consistent {
+                        ctx.rep.count(&format!("{}/metadata-forgery-consistent-with-opened-columns", S::NAME));
+                    }
+                    let mut proof = run.proof.clone();
+                    proof[0] = MProof { opening: MProofSingle { paths, v: v2, columns: cols }, well_formedness: p0.well_formedness.clone() };
+                    let mut vals = run.values.clone();
+                    vals[0] = value2;
+                    let cid = format!("{}/meta-next-2/forged", id);
+                    let out = decide::<S>(ctx, &cid, &run.pp, &comms, &run.point, &vals, &proof, &run.pre);
+                    refuse(ctx, &cid, "next-2/forged", &out);
+                    if value2 != run.values[0] {
+                        ctx.rep.count(&format!("{}/metadata-forgery-false-claim", S::NAME));
+                    }
+                }
+            }
+        }
+        ctx.rep.case(&format!("{} tampered n_ext_cols {} -> {}", describe(run), k, k2), Some(format!("{}/meta-next/{}/{:?}/{}", S::NAME, tag, spec.sizes, spec.wf)));
+    }
+    // tampered n_rows / n_cols with a false value
+    for (tag, f) in [
+        ("nrows+1", (|m: &mut MMetadata| m.n_rows += 1) as fn(&mut MMetadata)),
+        ("nrows-1", |m: &mut MMetadata| m.n_rows = m.n_rows.saturating_sub(1)),
+        ("nrows*2", |m: &mut MMetadata| m.n_rows *= 2),
+        ("ncols+1", |m: &mut MMetadata| m.n_cols += 1),
+        ("ncols-1", |m: &mut MMetadata| m.n_cols = m.n_cols.saturating_sub(1)),
+        ("ncols*2", |m: &mut MMetadata| m.n_cols *= 2),
+    ] {
+        let mut comms = run.comms.clone();
+        f(&mut comms[0].metadata);
+        if comms[0].metadata == c0.metadata {
+            continue;
+        }
+        let mut vals = run.values.clone();
+        vals[0] += rand_nonzero(rng);
+        let cid = format!("{}/meta-{}/false-value", id, tag);
+        let out = decide::<S>(ctx, &cid, &run.pp, &comms, &run.point, &vals, &run.proof, &run.pre);
+        refuse(ctx, &cid, &format!("{}/false-value", tag), &out);
+        let cid = format!("{}/meta-{}/true-value", id, tag);
+        let _ = decide::<S>(ctx, &cid, &run.pp, &comms, &run.point, &run.values, &run.proof, &run.pre);
+        ctx.rep.case(&format!("{} tampered {}", describe(run), tag), Some(format!("{}/meta/{}/{:?}/{}", S::NAME, tag, spec.sizes, spec.wf)));
+    }
 }
